@@ -27,7 +27,7 @@ CLAIMED["C06"] = {
     "engine": "E-CFG/E-TERM",
     "technique": "static analysis: 18-row obligation table matched by operand provenance, Err-only mismatch edges, must-pass-through to Ok, lossy-operation scan (MIR facts)",
     "design_ref": "DESIGN.md section 4 / C06",
-    "text": "Decides the first sentence of the property statically: every integrity field of the XZ format (magics, 4 CRC32s, stream flags, declared sizes, paddings, block check CRC32/CRC64, index count/sizes, backward size, trailing data) is compared with the right counterpart (identified by data-flow provenance), a mismatch reaches only Err, no successful return is reachable from the field's read without the comparison, the finalized digest is the one the reads were routed through, no comparison operand passes a narrowing cast or wrapping arithmetic, read_tag returns the comparison of the whole tag with tag.len() bytes read exactly (never a constant true), and a delegated padding check tests every byte for zero (no XOR/sum accumulation). Declined: the 'consequently' clause (it rests on CRC32/CRC64 detecting every corruption).",
+    "text": "Decides the first sentence of the property statically: every integrity field of the XZ format (magics, 4 CRC32s, stream flags, declared sizes, paddings, block check CRC32/CRC64, index count/sizes, backward size, trailing data) is compared with the right counterpart (identified by data-flow provenance), a mismatch reaches only Err, no successful return is reachable from the field's read without the comparison, the finalized digest is the one the reads were routed through, no comparison operand passes a narrowing cast or wrapping arithmetic, read_tag returns the comparison of the whole tag with tag.len() bytes read exactly (never a constant true), a delegated padding check tests every byte for zero (no XOR/sum accumulation), and the header-padding scan loop judges every fragment the reader delivers (emptiness exit, consume(len), verdict carried over the refills - shared C13.R1). Declined: the 'consequently' clause (it rests on CRC32/CRC64 detecting every corruption).",
     "note": "Trusts rustc's MIR and the documented Read/BufRead contracts.",
 }
 
@@ -64,7 +64,7 @@ CLAIMED["C14"] = {
     "engine": "E-CFG/E-TERM",
     "technique": "static sibling agreement: per-field provenance terms of reset_state vs constructor (field list from the ADT), dominance of reset_state in the reset entry points",
     "design_ref": "DESIGN.md section 4 / C14",
-    "text": "Decides statically: for every field of the decoder state (taken from the ADT definition, so a new field becomes an obligation) reset_state stores on every path the same value the constructor builds (an in-place reset method is compared recursively with the field type's constructor, element loops must cover the whole array), with two documented exceptions; the size in effect is written only by the constructors and set_unpacked_size; every other field of LzmaDecoder / Lzma2Decoder is configuration (never written after construction) or restored by reset; the literal table is refilled or re-created on both branches; LzmaDecoder::reset / Lzma2Decoder::reset call reset_state unconditionally with the constructor's properties; sizes cannot leak across LZMA2 resets; the construction-time copy of the size in LzmaParams is read only to build the decoder state (it is stale after reset(Some(size))); window and range decoder are per-call locals.",
+    "text": "Decides statically: for every field of the decoder state (taken from the ADT definition, so a new field becomes an obligation) reset_state stores on every path the same value the constructor builds (an in-place reset method is compared recursively with the field type's constructor, element loops must cover the whole array), with two documented exceptions, one of which (the streaming carry-over buffer) is decided rather than cited: input is staged into it only under mode == Partial or as a top-up of a non-empty buffer, so a Finish-mode-only decoder keeps it empty; the size in effect is written only by the constructors and set_unpacked_size; every other field of LzmaDecoder / Lzma2Decoder is configuration (never written after construction) or restored by reset; the literal table is refilled or re-created on both branches; LzmaDecoder::reset / Lzma2Decoder::reset call reset_state unconditionally with the constructor's properties; sizes cannot leak across LZMA2 resets; the construction-time copy of the size in LzmaParams is read only to build the decoder state (it is stale after reset(Some(size))); window and range decoder are per-call locals.",
     "note": "Trusts rustc's MIR.",
 }
 
@@ -95,7 +95,7 @@ CLAIMED["C01"] = {
     "engine": "E-CFG/E-TERM",
     "technique": "static analysis: header-field map, symbol-automaton constants, context-index terms, who-writes enumeration of the circular window, table shapes (MIR facts, provenance terms)",
     "design_ref": "DESIGN.md section 4 / C01",
-    "text": PARTIAL + "the properties byte is split as lc = b % 9, lp = b / 9 % 5, pb = b / 45 with the only rejection b >= 225 and the dictionary size in effect is max(header field, 4096) (gated evaluation on 10 values); the 12-state automaton (each store to `state` evaluated as a function of the old state, per symbol kind read off the dominating decision bits), the length coder per kind, the repeat-distance rotations (replayed in execution order), the +2 / end-marker terms; the nine steps of literal decoding and the decoded distance for all 64 slots (evaluation with symbolic sub-decodings); every DecoderState field is written only by the symbol-decoder family, the constructor and reset_state; the window's distance guards reject exactly dist > bound; every window is constructed with params.dict_size unmodified; cursor/len/buf of the circular window are written only by append_literal/set (wrap at dict_size), the buffer grows to a length in [index+1, dict_size], finish slices [0, cursor), last_or reads the default iff nothing was produced and otherwise cell (dict_size + cursor - 1) % dict_size, last_n(dist) reads cell (dict_size + cursor - dist) % dict_size (both evaluated over cursor x distance / produced x dict_size); probability tables have the format's shapes and 0x400 initialiser; every range-decoder step term (bound, bit test, both probability updates for all 2047 probabilities, normalisation, direct bits, bit-tree recurrences and indices, length-coder offsets, initial state) evaluates to the reference formula. Declined (not static): that the range-coder arithmetic yields the encoder's bits, i.e. byte-exact output - this needs value-level reasoning over 2^32-range arithmetic on every path.",
+    "text": PARTIAL + "the properties byte is split as lc = b % 9, lp = b / 9 % 5, pb = b / 45 with the only rejection b >= 225 and the dictionary size in effect is max(header field, 4096) (gated evaluation on 10 values); the 12-state automaton (each store to `state` evaluated as a function of the old state, per symbol kind read off the dominating decision bits), the length coder per kind, the repeat-distance rotations (replayed in execution order), the +2 / end-marker terms; the nine steps of literal decoding and the decoded distance for all 64 slots (evaluation with symbolic sub-decodings); every DecoderState field is written only by the symbol-decoder family, the constructor and reset_state; the window's distance guards reject exactly dist > bound; every window is constructed with params.dict_size unmodified; cursor/len/buf of the circular window are written only by append_literal/set (wrap at dict_size), the buffer grows to a length in [index+1, dict_size], finish slices [0, cursor), last_or reads the default iff nothing was produced and otherwise cell (dict_size + cursor - 1) % dict_size, last_n(dist) reads cell (dict_size + cursor - dist) % dict_size (both evaluated over cursor x distance / produced x dict_size); probability tables have the format's shapes and 0x400 initialiser; the decision bits is_match / is_rep_0long are indexed injectively by (state, produced length mod 2^pb) inside their 192 entries for every pb 0..=4 and the four per-state tables by the state itself (evaluation over 12 states x pos_state x pb); every range-decoder step term (bound, bit test, both probability updates for all 2047 probabilities, normalisation, direct bits, bit-tree recurrences and indices, length-coder offsets, initial state) evaluates to the reference formula. Declined (not static): that the range-coder arithmetic yields the encoder's bits, i.e. byte-exact output - this needs value-level reasoning over 2^32-range arithmetic on every path.",
     "note": "Trusts rustc's MIR; the constants in rules/C01.py transcribe the LZMA specification.",
 }
 CLAIMED["C02"] = {
@@ -117,7 +117,7 @@ CLAIMED["C04"] = {
     "engine": "E-CFG/E-TERM",
     "technique": "static analysis: guards and emitted-byte terms of the writers extracted from MIR (flow-sensitive provenance terms) and evaluated over finite domains against the format; composition with the reader's extracted terms (inverse checks); sibling agreement encoder contexts / header; control dependence; must-pass-through",
     "design_ref": "DESIGN.md section 4 / C04",
-    "text": PARTIAL + "the LZMA2 writer emits the end byte exactly when read() returned 0 (short reads continue), chunks are control 1, big-endian n-1 (fits: buffer <= 65536) and buf[..n], and reads again afterwards; the multi-byte writer partitions on value >= 0x80 with bytes 0x80|(v&0x7F) / v and carries v >> 7 (inverse of C03.R2); the XZ block header written is 4*(size byte+1) bytes with one accepted filter id, one property byte and zero padding; writer paddings are (-count) mod 4 zero bytes; reader_term(writer_term(s)) = s for the backward size and the index record / footer size come unmodified from the counting adapters; the .lzma header's properties byte decodes to the lc/lp/pb the encoder's own context indices use, the size field is all-ones / caller's value / absent per option, the end marker is written iff the size is declared unknown with the format's 1+1+4+6+30 bits and in the position state of the number of bytes encoded (gated evaluation for 10 lengths), every Ok finish flushes; encode_bit's stores to low/range and encode_literal's MSB-first bit and tree recurrence evaluate to the reference; range-encoder constants (11-bit probabilities, shift 5 for all 2047 probabilities, top 2^24, 5-byte flush, initial state, carry constants) are the decoder's; the carry flush of write_low hands the sink single bytes whose values are exactly cache + carry first and 0xFF + carry afterwards (evaluated, wrapping in u8), one per decrement of cachesz until it is 0, and the new cached byte (low >> 24) is stored once, in the flush branch, after the bytes went out. Declined (not static): that the range-coded payload round-trips for every input (2^32-range numerics), interoperability of the payload.",
+    "text": PARTIAL + "the LZMA2 writer emits the end byte exactly when read() returned 0 (short reads continue), chunks are control 1, big-endian n-1 (fits: buffer <= 65536) and buf[..n], and reads again afterwards; the multi-byte writer partitions on value >= 0x80 with bytes 0x80|(v&0x7F) / v and carries v >> 7 (inverse of C03.R2); the XZ block header written is 4*(size byte+1) bytes with one accepted filter id, one property byte and zero padding; writer paddings are (-count) mod 4 zero bytes; reader_term(writer_term(s)) = s for the backward size and the index record / footer size come unmodified from the counting adapters; the .lzma header's properties byte decodes to the lc/lp/pb the encoder's own context indices use, the size field is all-ones / caller's value / absent per option, the end marker is written iff the size is declared unknown with the format's 1+1+4+6+30 bits and in the position state of the number of bytes encoded (gated evaluation for 10 lengths), every Ok finish flushes; the digesting / counting write adapters account exactly the bytes the sink accepted (shared C12.R2); encode_bit's stores to low/range and encode_literal's MSB-first bit and tree recurrence evaluate to the reference; range-encoder constants (11-bit probabilities, shift 5 for all 2047 probabilities, top 2^24, 5-byte flush, initial state, carry constants) are the decoder's; the carry flush of write_low hands the sink single bytes whose values are exactly cache + carry first and 0xFF + carry afterwards (evaluated, wrapping in u8), one per decrement of cachesz until it is 0, and the new cached byte (low >> 24) is stored once, in the flush branch, after the bytes went out. Declined (not static): that the range-coded payload round-trips for every input (2^32-range numerics), interoperability of the payload.",
     "note": "Trusts rustc's MIR; constants in rules/C04.py transcribe the formats; evaluates extracted expression terms (not the program).",
 }
 
